@@ -262,9 +262,11 @@ def render_lines(items, sp, out):
         else:
             out.append(it.indent + sp.open_tag(it))
             if it.unwrap:
-                out.append(it.indent + it.wrap_open)
+                if it.wrap_open is not None:
+                    out.append(it.indent + it.wrap_open)
                 render_lines(it.children, sp, out)
-                out.append(it.indent + it.wrap_close)
+                if it.wrap_close is not None:
+                    out.append(it.indent + it.wrap_close)
             else:
                 render_lines(it.children, sp, out)
             out.append(it.indent + sp.close_tag(it))
